@@ -124,6 +124,9 @@ pub trait Flavour: Sized + 'static {
     /// (len, iter_nodes, iter_edges, first/last edge and node, indexing, to_vec_*), as text
     fn path_info(root: &Self::Node, spec: &SearchSpec) -> Option<String>;
     /// `Graph::default()`, and `Graph::with_capacity(c)` where the flavour has it
+    /// graphs built with the flavour's construction macros (four signature forms; self-loop,
+    /// repeated edge, forward reference, empty list), described as text
+    fn macro_samples() -> Vec<String>;
     fn g_default() -> Self::Graph;
     fn g_with_capacity(c: usize) -> Option<Self::Graph>;
 
@@ -410,6 +413,65 @@ macro_rules! dot_attr_impl {
     };
 }
 
+macro_rules! describe_macro_graph {
+    ($g:expr, $m:ident) => {{
+        let g = $g;
+        let mut d: Vec<(String, String, Vec<(String, String)>)> = g
+            .iter()
+            .map(|(k, node)| {
+                let mut out = Vec::new();
+                for gdsl::$m::Edge(_, b, e) in node {
+                    out.push((format!("{:?}", b.key()), format!("{:?}", e)));
+                }
+                (format!("{:?}", k), format!("{:?}", node.value()), out)
+            })
+            .collect();
+        d.sort();
+        format!("{d:?}")
+    }};
+}
+
+macro_rules! macro_samples_impl {
+    ($m:ident, $mac:ident) => {
+        fn macro_samples() -> Vec<String> {
+            let g0 = gdsl::$mac![];
+            let g1 = gdsl::$mac![
+                (&str)
+                ("A") => ["B", "C", "B"]
+                ("B") => ["B"]
+                ("C") => ["D", "A"]
+                ("D") => []
+            ];
+            let g2 = gdsl::$mac![
+                (&str, i32)
+                ("A", 1) => ["C", "B"]
+                ("B", 2) => ["A", "A"]
+                ("C", 3) => []
+            ];
+            let g3 = gdsl::$mac![
+                (&str) => [i32]
+                ("A") => [("B", 10), ("B", 11), ("A", 12)]
+                ("B") => [("C", 13)]
+                ("C") => []
+            ];
+            let g4 = gdsl::$mac![
+                (usize, i32) => [u8]
+                (1, 42) => [(2, 1), (3, 2), (10, 3)]
+                (2, 42) => [(3, 4), (1, 5)]
+                (3, 42) => [(3, 6)]
+                (10, 7) => [(1, 8)]
+            ];
+            vec![
+                format!("{} members", g0.len()),
+                describe_macro_graph!(&g1, $m),
+                describe_macro_graph!(&g2, $m),
+                describe_macro_graph!(&g3, $m),
+                describe_macro_graph!(&g4, $m),
+            ]
+        }
+    };
+}
+
 macro_rules! describe_path {
     ($p:expr) => {{
         let p = $p;
@@ -671,6 +733,7 @@ macro_rules! directed_flavour {
                     _ => None,
                 }
             }
+            macro_samples_impl!($m, $m);
             fn g_default() -> Self::Graph {
                 Default::default()
             }
@@ -911,6 +974,7 @@ macro_rules! undirected_flavour {
                     _ => None,
                 }
             }
+            macro_samples_impl!($m, $m);
             fn g_default() -> Self::Graph {
                 Default::default()
             }
